@@ -30,8 +30,8 @@ GRAPH_EVERY = 8          # run i is a graph run iff i % GRAPH_EVERY == 7
 SLICES = 16              # the 65 536 four-node digraphs are cut in 16 slices
 
 TIERS = {
-    'quick': dict(max_cells=9, n_sched=3, win=3),
-    'thorough': dict(max_cells=12, n_sched=4, win=4),
+    'quick': dict(max_cells=9, n_sched=4, win=3),
+    'thorough': dict(max_cells=12, n_sched=6, win=4),
 }
 RULE = ('World run: a workbook of 2-9 (thorough 12) cells on a random cyclic '
         'dependency graph (edges through +, SUM ranges, defined names, IF '
@@ -78,12 +78,20 @@ def generate(seed, tier):
         w_ifna=sw.pick([0, 0, 1]),
     )
     world = gen_world(rng, prof)
+    if sw.chance(.5):
+        world = gen_motif_world(Rng(seed, 'motif'), tier)
     srng = Rng(seed, 'sched')
     n_items = len(world['cells']) + len(world['names'])
     scheds = []
+    # Two placements (identity + one translation / renaming); the schedules
+    # alternate between them.  C10 promises independence of CELL ORDER and
+    # HASH SEED, so outcomes are compared between schedules of one placement
+    # and between hash seeds - not between placements: which of several
+    # equally good cycles is cut is decided by node names.
+    pls = [identity_placement(world),
+           gen_placement(Rng(seed, 'place/1'), world)]
     for k in range(t['n_sched']):
-        pl = identity_placement(world) if k == 0 else gen_placement(
-            Rng(seed, 'place/%d' % k), world)
+        pl = pls[k % 2]
         kind = 'dict' if k == 0 or srng.chance(.7) else 'file'
         s = {'kind': kind, 'placement': pl}
         if kind == 'dict':
@@ -97,6 +105,115 @@ def generate(seed, tier):
         scheds.append(s)
     return {'prop': ID, 'kind': 'world', 'seed': seed, 'tier': tier,
             'world': world, 'schedules': scheds}
+
+
+def gen_motif_world(rng, tier):
+    """Edge-first generator: pick cells, pick dependency edges (back edges
+    included), give every edge a kind, and write each cell's formula as the
+    sum of its edge terms.  Dense in overlapping cycles, cycles through
+    ranges and names, guarded branches that are or are not selected, and
+    error-absorbing positions - the structures the cycle breaker decides on."""
+    h, w = rng.pick([(2, 3), (3, 3), (3, 4)] if tier == 'quick'
+                    else [(3, 3), (3, 4), (4, 4)])
+    world = {'books': [[[h, w]]], 'cells': [], 'names': []}
+    slots = [(r, c) for r in range(h) for c in range(w)]
+    rng.shuffle(slots)
+    n = rng.randrange(2, 6 if tier == 'quick' else 8)
+    ng = rng.randrange(1, 3)
+    n = min(n, len(slots) - ng)
+    cells = slots[:n]
+    guards = slots[n:n + ng]
+    gvals = [rng.pick([0, 1, 3, 5]) for _ in guards]
+
+    def ref(p, q=None):
+        q = q or p
+        return ['r', 0, 0, min(p[0], q[0]), min(p[1], q[1]),
+                max(p[0], q[0]), max(p[1], q[1])]
+
+    def rect_around(p):
+        r1, c1, r2, c2 = p[0], p[1], p[0], p[1]
+        for _ in range(rng.randrange(1, 3)):
+            d = rng.randrange(4)
+            if d == 0 and r1 > 0:
+                r1 -= 1
+            elif d == 1 and r2 < h - 1:
+                r2 += 1
+            elif d == 2 and c1 > 0:
+                c1 -= 1
+            elif d == 3 and c2 < w - 1:
+                c2 += 1
+        return ['r', 0, 0, r1, c1, r2, c2]
+
+    def guard():
+        g = rng.randrange(len(guards))
+        return ['op', '>', ref(guards[g]), ['n', rng.pick([0, 2, 4])]]
+
+    names = []
+
+    def term(v):
+        k = rng.weighted([('strict', 3), ('range', 2.5), ('if_then', 2),
+                          ('if_else', 2), ('if_range', 2), ('ifs', .7),
+                          ('iferror_fb', 1), ('iferror_val', .8),
+                          ('ifna_fb', .4), ('iserror', .6), ('count', .8),
+                          ('name', .8), ('guard', .6)])
+        if k == 'strict':
+            return ref(v)
+        if k == 'range':
+            return ['f', rng.pick(['SUM', 'SUM', 'MAX', 'MIN']),
+                    rect_around(v)]
+        if k == 'if_then':
+            return ['f', 'IF', guard(), ref(v), ['n', rng.randrange(0, 4)]]
+        if k == 'if_else':
+            return ['f', 'IF', guard(), ['n', rng.randrange(0, 4)], ref(v)]
+        if k == 'if_range':
+            a, b = ['f', 'SUM', rect_around(v)], ['n', 1]
+            return ['f', 'IF', guard()] + ([a, b] if rng.chance(.5)
+                                           else [b, a])
+        if k == 'ifs':
+            return ['f', 'IFS', guard(), ref(v), ['b', True], ['n', 2]]
+        if k == 'iferror_fb':
+            return ['f', 'IFERROR', rng.pick([['n', 1], ['e', '#N/A']]),
+                    ref(v)]
+        if k == 'ifna_fb':
+            return ['f', 'IFNA', rng.pick([['n', 1], ['e', '#N/A']]), ref(v)]
+        if k == 'iferror_val':
+            return ['f', 'IFERROR', ref(v), ['n', rng.randrange(0, 4)]]
+        if k == 'iserror':
+            return ['op', '+', ['f', 'ISERROR', ref(v)], ['n', 0]]
+        if k == 'count':
+            return ['f', 'COUNT', rect_around(v)]
+        if k == 'guard':    # the guard of an IF depends on v (strict)
+            return ['f', 'IF', ['op', '>', ref(v), ['n', 2]], ['n', 1],
+                    ['n', 2]]
+        names.append({'b': 0, 't': ref(v), 'avail': 0})
+        return ['nm', len(names) - 1]
+
+    for g, val in zip(guards, gvals):
+        world['cells'].append({'at': [0, 0, g[0], g[1]], 'v': val})
+    for u in cells:
+        deps = [rng.pick(cells) for _ in range(rng.weighted(
+            [(0, 1), (1, 5), (2, 4), (3, 1.5)]))]
+        terms = [term(v) for v in deps]
+        if not terms:
+            world['cells'].append({'at': [0, 0, u[0], u[1]],
+                                   'v': rng.randrange(0, 6)})
+            continue
+        f = terms[0]
+        for t2 in terms[1:]:
+            f = ['op', rng.pick(['+', '+', '-', '*']), f, t2]
+        world['cells'].append({'at': [0, 0, u[0], u[1]], 'f': f})
+    world['names'] = names[:8]
+    # names beyond the pool are inlined
+    def fix(e):
+        if e[0] == 'nm' and e[1] >= 8:
+            return names[e[1]]['t']
+        if e[0] in ('op', 'f'):
+            return e[:2] + [fix(x) for x in e[2:]]
+        return e
+    for c in world['cells']:
+        if 'f' in c:
+            c['f'] = fix(c['f'])
+    return world
 
 
 def gen_graph_trace(seed, tier):
@@ -414,15 +531,35 @@ def execute_world(trace):
             v['sched'] = k
             viol.append(v)
         outcomes.append((k, obs.normal(names=False)))
-    for k, normal in outcomes[1:]:
-        for key in sorted(normal):
-            if normal[key] != outcomes[0][1][key]:
-                viol.append({
-                    'clause': 'C10.order', 'sched': k, 'cell': key,
-                    'detail': 'schedule %d: %s = %s but schedule %d gives %s'
-                              % (k, key, normal[key], outcomes[0][0],
-                                 outcomes[0][1][key])})
-                break
+    # cells whose value is touched by a known finding in some schedule (the
+    # flagged cell and everything downstream of it): whether such a cell shows
+    # #CIRC! or a value may legitimately differ between schedules - that IS
+    # the known finding - and is reported under its signature, not as a new
+    # order violation
+    known_cells = {}
+    if G is not None:
+        for v in viol:
+            sig = signature(trace, v)
+            if sig and isinstance(v.get('cell'), int):
+                for i in range(G.n):
+                    if v['cell'] in G.reach(i):
+                        known_cells.setdefault(i, sig)
+    base = {}
+    for k, normal in outcomes:
+        pk = digest(trace['schedules'][k]['placement'])
+        if pk not in base:
+            base[pk] = (k, normal)
+            continue
+        k0, n0 = base[pk]
+        diff = [key for key in sorted(normal) if normal[key] != n0[key]]
+        if diff:
+            key = diff[0]
+            viol.append({
+                'clause': 'C10.order', 'sched': k, 'cell': key,
+                'detail': 'schedule %d: %s = %s but schedule %d (same '
+                          'placement, other order / load path) gives %s '
+                          '(cells that differ: %s)' % (
+                              k, key, normal[key], k0, n0[key], diff)})
     ms = stats.pop('max_steps', 0)
     stats['max_steps_seen'] = {'max': ms}
     ncyc = stats.get('static_cycles', 0)
@@ -439,7 +576,9 @@ def execute_world(trace):
         stats.update(kinds)
     return {
         'violations': viol,
-        'outcome': digest(outcomes[0][1]) if outcomes else 'none',
+        'outcome': digest([o[1] for o in outcomes]) if outcomes else 'none',
+        'cells': outcomes[0][1] if outcomes else {},
+        'known_cells': {str(i): sg for i, sg in sorted(known_cells.items())},
         'events': log.digest(), 'stats': stats,
         'nontrivial': ncyc > 0 and stats['schedules'] >= 2,
         'case_key': digest([world, trace['schedules']]),
@@ -451,10 +590,14 @@ def cross(trace, results):
         return []
     hs = sorted(results)
     for h in hs[1:]:
-        if results[h]['outcome'] != results[hs[0]]['outcome']:
+        a, b = results[hs[0]], results[h]
+        if b['outcome'] != a['outcome']:
+            diff = [k for k in sorted(a.get('cells', {}))
+                    if a['cells'][k] != b.get('cells', {}).get(k)]
             return [{'clause': 'C10.order',
                      'detail': 'outcome differs between PYTHONHASHSEED=%s and '
-                               '%s' % (hs[0], h)}]
+                               '%s (cells that differ in the first schedule: '
+                               '%s)' % (hs[0], h, diff)}]
     return []
 
 
